@@ -945,3 +945,147 @@ Proof.
   apply parse_exact_ok in Ea, Eab. rewrite <- (app_nil_r a) in Ea.
   apply (parse_one_local _ _ b) in Ea. rewrite Ea in Eab. injection Eab as _ ->. reflexivity.
 Qed.
+
+(* ------------------------------------------------------------------ the printer emits bytes *)
+
+Lemma bytes_okb_ok b : bytes_okb b = true -> bytes_ok b.
+Proof.
+  unfold bytes_okb, bytes_ok. rewrite forallb_forall, Forall_forall. intros H x Hin. apply N.ltb_lt, H, Hin.
+Qed.
+
+Lemma bytes_ok_app a b : bytes_ok a -> bytes_ok b -> bytes_ok (a ++ b).
+Proof. intros Ha Hb. apply Forall_app. split; assumption. Qed.
+
+Lemma bytes_ok_flat_map {A} (enc : A -> bytes) xs :
+  (forall x, In x xs -> bytes_ok (enc x)) -> bytes_ok (flat_map enc xs).
+Proof.
+  induction xs as [|x xs IH]; intros H; cbn [flat_map]; [constructor|].
+  apply bytes_ok_app; [apply H; left; reflexivity|apply IH; intros y Hy; apply H; right; exact Hy].
+Qed.
+
+Lemma bytes_ok_chunks m cs : m < 8 -> forallb chunk_ok cs = true -> bytes_ok (encode_chunks m cs).
+Proof.
+  intros Hm H. rewrite forallb_forall in H. apply bytes_ok_flat_map. intros c Hin. apply H in Hin.
+  unfold chunk_ok in Hin. apply andb_true_iff in Hin as [Hb _].
+  apply bytes_ok_app; [apply encode_head_bytes_ok, Hm|apply bytes_okb_ok, Hb].
+Qed.
+
+Theorem encode_item_bytes_ok : forall it, item_ok it = true -> bytes_ok (encode_item it).
+Proof.
+  induction it as [n|n|b|cs|b|cs|d xs IH|d kvs IH|t x IH|n|w v] using item_ind2; intros Hok;
+    cbn [item_ok] in Hok; cbn [encode_item].
+  - apply encode_head_bytes_ok. lia.
+  - apply encode_head_bytes_ok. lia.
+  - unfold chunk_ok in Hok. apply andb_true_iff in Hok as [Hb _].
+    apply bytes_ok_app; [apply encode_head_bytes_ok; lia|apply bytes_okb_ok, Hb].
+  - constructor; [lia|]. apply bytes_ok_app; [apply bytes_ok_chunks; [lia|exact Hok]|]. constructor; [lia|constructor].
+  - unfold chunk_ok in Hok. apply andb_true_iff in Hok as [Hb _].
+    apply bytes_ok_app; [apply encode_head_bytes_ok; lia|apply bytes_okb_ok, Hb].
+  - constructor; [lia|]. apply bytes_ok_app; [apply bytes_ok_chunks; [lia|exact Hok]|]. constructor; [lia|constructor].
+  - apply andb_true_iff in Hok as [_ Hall]. rewrite forallb_forall in Hall. rewrite Forall_forall in IH.
+    assert (HB : bytes_ok (flat_map encode_item xs)).
+    { apply bytes_ok_flat_map. intros x Hin. apply IH; [exact Hin|apply Hall, Hin]. }
+    destruct d.
+    + apply bytes_ok_app; [apply encode_head_bytes_ok; lia|exact HB].
+    + constructor; [lia|]. apply bytes_ok_app; [exact HB|]. constructor; [lia|constructor].
+  - apply andb_true_iff in Hok as [_ Hall]. rewrite forallb_forall in Hall. rewrite Forall_forall in IH.
+    change (flat_map _ kvs) with (flat_map encode_pair kvs).
+    assert (HB : bytes_ok (flat_map encode_pair kvs)).
+    { apply bytes_ok_flat_map. intros [k v] Hin. specialize (Hall _ Hin). cbn beta iota in Hall.
+      apply andb_true_iff in Hall as [Hk Hv]. destruct (IH _ Hin) as [IHk IHv]. cbn [fst snd] in IHk, IHv.
+      unfold encode_pair. apply bytes_ok_app; [apply IHk, Hk|apply IHv, Hv]. }
+    destruct d.
+    + apply bytes_ok_app; [apply encode_head_bytes_ok; lia|exact HB].
+    + constructor; [lia|]. apply bytes_ok_app; [exact HB|]. constructor; [lia|constructor].
+  - apply andb_true_iff in Hok as [_ Hx].
+    apply bytes_ok_app; [apply encode_head_bytes_ok; lia|apply IH, Hx].
+  - apply encode_head_bytes_ok. lia.
+  - destruct w; cbn [fwidth_bytes encode_head_w]; (constructor; [lia|apply be_bytes_ok]).
+Qed.
+
+(* ------------------------------------------------------------------ smoke tests *)
+
+(* indefinite array [1, [2, 3]] : 9f 01 82 02 03 ff *)
+Example ex_indef_array :
+  parse_one [159; 1; 130; 2; 3; 255] = Ok (IArray false [IUint 1; IArray true [IUint 2; IUint 3]], []).
+Proof. vm_compute. reflexivity. Qed.
+
+(* chunked byte string 5f 42 01 02 41 03 ff followed by one more byte *)
+Example ex_chunked_bytes :
+  parse_one [95; 66; 1; 2; 65; 3; 255; 7] = Ok (IBytesChunked [[1; 2]; [3]], [7]).
+Proof. vm_compute. reflexivity. Qed.
+
+Example ex_skip_chunked :
+  skip_item [95; 66; 1; 2; 65; 3; 255; 7] = Ok ([95; 66; 1; 2; 65; 3; 255], [7]).
+Proof. vm_compute. reflexivity. Qed.
+
+(* tag 258 set: d9 01 02 81 01 *)
+Example ex_tag_258 : parse_exact [217; 1; 2; 129; 1] = Ok (ITag 258 (IArray true [IUint 1])).
+Proof. vm_compute. reflexivity. Qed.
+
+(* nested map {1: {2: 3}, 4: []} *)
+Example ex_nested_map :
+  parse_exact [162; 1; 161; 2; 3; 4; 128] =
+  Ok (IMap true [(IUint 1, IMap true [(IUint 2, IUint 3)]); (IUint 4, IArray true [])]).
+Proof. vm_compute. reflexivity. Qed.
+
+Example ex_lookup :
+  match parse_exact [162; 1; 161; 2; 3; 4; 128] with
+  | Ok m => map_lookup_uint 4 m = Some (IArray true []) /\ uint_keys m = Some [1; 4]
+  | _ => False
+  end.
+Proof. vm_compute. split; reflexivity. Qed.
+
+(* ill-formed inputs: truncated map, lone break, break in value position, indefinite chunk inside a chunked
+   string, text chunk inside a chunked byte string, reserved additional info, f8 with a value < 32,
+   2^64-1 element array with one byte left, empty input *)
+Example ex_ill_formed :
+  map item_wf [[162; 1; 161; 2; 3; 4]; [255]; [191; 1; 255]; [95; 95; 255; 255]; [95; 97; 65; 255];
+               [28]; [29]; [30]; [248; 31]; [155; 255; 255; 255; 255; 255; 255; 255; 255; 1]; []; [25; 1];
+               [159; 1]; [130; 1]; [192]]
+  = repeat false 15.
+Proof. vm_compute. reflexivity. Qed.
+
+Example ex_err_not_oof : parse_one [162; 1; 161; 2; 3; 4] = Err.
+Proof. vm_compute. reflexivity. Qed.
+
+(* well-formed but not shortest / not definite *)
+Example ex_canon :
+  (heads_shortest [24; 1], heads_shortest [24; 24], item_wf [24; 1],
+   canon_bytes false false [159; 1; 255], canon_bytes true false [159; 1; 255],
+   canon_bytes true false [95; 65; 1; 255], canon_bytes true true [95; 65; 1; 255],
+   canon_bytes true true [191; 1; 2; 255], canon_bytes3 false true false [191; 1; 2; 255])
+  = (false, true, true, false, true, false, true, false, true).
+Proof. vm_compute. reflexivity. Qed.
+
+(* floats, simple values, negative integers, nesting budget *)
+Example ex_misc :
+  parse_exact [249; 60; 0] = Ok (IFloat F16 15360) /\ parse_exact [246] = Ok (ISimple 22) /\
+  parse_exact [248; 32] = Ok (ISimple 32) /\ parse_exact [56; 99] = Ok (INint 99) /\
+  as_int (INint 99) = Some (-100)%Z /\
+  parse_item 2 [129; 129; 129; 1] = OutOfFuel /\
+  parse_item 4 [129; 129; 129; 1] = Ok (IArray true [IArray true [IArray true [IUint 1]]], []).
+Proof. vm_compute. repeat split; reflexivity. Qed.
+
+(* non-vacuity of the round-trip premises on a value using every constructor *)
+Definition ex_item : item :=
+  ITag 258 (IArray false
+    [IMap true [(IUint 1, INint 70000); (IText [97; 98], IBytesChunked [[1; 2]; []; [255]])];
+     IMap false [(IBytes [0; 255], ITextChunked [[104]; [105]])];
+     ISimple 20; ISimple 255; IFloat F16 15360; IFloat F32 1065353216; IFloat F64 4607182418800017408;
+     IUint 18446744073709551615; IArray true []]).
+Example ex_item_ok : item_ok ex_item = true /\ canon_item true true ex_item = false /\
+  parse_exact (encode_item ex_item) = Ok ex_item /\ heads_shortest (encode_item ex_item) = true /\
+  skip_item (encode_item ex_item ++ [1; 2; 3]) = Ok (encode_item ex_item, [1; 2; 3]).
+Proof. vm_compute. repeat split; reflexivity. Qed.
+
+Print Assumptions parse_item_suffix.
+Print Assumptions skip_item_exact.
+Print Assumptions parse_item_no_panic.
+Print Assumptions parse_item_fuel_mono.
+Print Assumptions parse_item_fuel_enough.
+Print Assumptions parse_item_encode.
+Print Assumptions parse_item_prefix_free.
+Print Assumptions skip_item_slice.
+Print Assumptions canon_bytes3_encode.
+Print Assumptions encode_item_bytes_ok.
